@@ -176,18 +176,16 @@ def tol_unit(p, dtype):
   return t
 
 
-def reverse_log_ill_conditioned(p, dtype):
-  """lo is (nearly) lost in fl(lo+hi): ln(lo+hi-x) has O(1) relative error."""
-  lo, hi = bounds_of(p)
-  return lo > 0 and eps_of(dtype) * (lo + hi) / lo > 0.25
-
-
 def tol_value(p, x, dtype, scaled):
   """|decoded - x| allowed for a DOUBLE value x after an encode/decode trip."""
   eps = eps_of(dtype)
   lo, hi = bounds_of(p)
   m = max(abs(lo), abs(hi), hi - lo)
   s = scale_of(p)
+  if scaled and float(np.asarray(lo, dtype)) == float(np.asarray(hi, dtype)):
+    # degenerate in this dtype: the documented encoding is 0.5 + (x - lo), so
+    # the accuracy of the trip is that of numbers of magnitude 0.5
+    return 4 * eps * max(m, 0.5) + tiny_of(dtype)
   if not scaled or s == 'LINEAR' or lo == hi:
     return 4 * eps * m + tiny_of(dtype)
   ll = abs(math.log(lo)) + abs(math.log(hi))
